@@ -219,6 +219,8 @@ impl Intern {
         m.insert("V2()".into(), 1); // NoteVersion::V2
         m.insert("V3()".into(), 2); // NoteVersion::V3
         m.insert("(0,false())".into(), 3); // zero Orchard value_sum
+        m.insert("0".into(), 4); // the number 0 (default lock time)
+        m.insert("4294967295".into(), 5); // u32::MAX (default sequence)
         Intern { m }
     }
     fn id(&mut self, t: String) -> usize {
@@ -297,6 +299,16 @@ struct Spec {
     iout: usize,
     ospend: bool,
     sspend: bool,
+    memo: u8, // 0 empty, 1 = 512 non-zero bytes, 2 = 511 non-zero bytes, 3 = one byte
+}
+
+fn memo_of(kind: u8) -> MemoBytes {
+    match kind {
+        1 => MemoBytes::from_bytes(&[0x41u8; 512]).unwrap(),
+        2 => MemoBytes::from_bytes(&[0x42u8; 511]).unwrap(),
+        3 => MemoBytes::from_bytes(&[0x43u8; 1]).unwrap(),
+        _ => MemoBytes::empty(),
+    }
 }
 
 struct Keys {
@@ -400,12 +412,12 @@ fn build_base(spec: &Spec, k: &Keys, rng: &mut Rng) -> Option<Base> {
             for _ in 0..spec.oout {
                 j += 1;
                 let v = if j == n { change } else { each };
-                b.add_orchard_output::<zip317::FeeRule>(Some(ovk.clone()), rcp, Zatoshis::from_u64(v).ok()?, MemoBytes::empty()).ok()?;
+                b.add_orchard_output::<zip317::FeeRule>(Some(ovk.clone()), rcp, Zatoshis::from_u64(v).ok()?, memo_of(spec.memo)).ok()?;
             }
             for _ in 0..spec.iout {
                 j += 1;
                 let v = if j == n { change } else { each };
-                b.add_ironwood_output::<zip317::FeeRule>(Some(ovk.clone()), rcp, Zatoshis::from_u64(v).ok()?, MemoBytes::empty()).ok()?;
+                b.add_ironwood_output::<zip317::FeeRule>(Some(ovk.clone()), rcp, Zatoshis::from_u64(v).ok()?, memo_of(spec.memo)).ok()?;
             }
             let _ = rng;
             Some(b)
@@ -453,17 +465,17 @@ fn build_base(spec: &Spec, k: &Keys, rng: &mut Rng) -> Option<Base> {
         for _ in 0..spec.sout {
             j += 1;
             let to = k.s_extsk.to_diversifiable_full_viewing_key().default_address().1;
-            b.add_sapling_output::<zip317::FeeRule>(None, to, Zatoshis::from_u64(val(j)).ok()?, MemoBytes::empty()).ok()?;
+            b.add_sapling_output::<zip317::FeeRule>(None, to, Zatoshis::from_u64(val(j)).ok()?, memo_of(spec.memo)).ok()?;
         }
         let ovk = k.o_fvk.to_ovk(orchard::keys::Scope::External);
         let rcp = k.o_fvk.address_at(0u32, orchard::keys::Scope::External);
         for _ in 0..spec.oout {
             j += 1;
-            b.add_orchard_output::<zip317::FeeRule>(Some(ovk.clone()), rcp, Zatoshis::from_u64(val(j)).ok()?, MemoBytes::empty()).ok()?;
+            b.add_orchard_output::<zip317::FeeRule>(Some(ovk.clone()), rcp, Zatoshis::from_u64(val(j)).ok()?, memo_of(spec.memo)).ok()?;
         }
         for _ in 0..spec.iout {
             j += 1;
-            b.add_ironwood_output::<zip317::FeeRule>(Some(ovk.clone()), rcp, Zatoshis::from_u64(val(j)).ok()?, MemoBytes::empty()).ok()?;
+            b.add_ironwood_output::<zip317::FeeRule>(Some(ovk.clone()), rcp, Zatoshis::from_u64(val(j)).ok()?, memo_of(spec.memo)).ok()?;
         }
         if spec.zero_tout {
             b.add_transparent_output(&k.t_addr, Zatoshis::ZERO).ok()?;
@@ -997,6 +1009,7 @@ fn ser_case(cx: &mut Ctx, p: &Pczt) {
 /// Malformed stream: mutated encodings must be rejected or parse to something that re-serialises.
 fn parse_case(cx: &mut Ctx, bytes: &[u8]) {
     let r = catch(|| Pczt::parse(bytes).ok());
+    let impl_ok = matches!(r, Some(Some(_)));
     let o = match r {
         None => "Panic".to_string(),
         Some(None) => "(Ok None)".to_string(),
@@ -1009,6 +1022,10 @@ fn parse_case(cx: &mut Ctx, bytes: &[u8]) {
             format!("(Ok (Some ({}, {})))", t, bt)
         }
     };
+    if bytes.len() <= 4000 {
+        case(format!("CMut {} {}", hn(bytes), boolc(impl_ok)));
+        cx.n_cases += 1;
+    }
     let head: Vec<u8> = bytes.iter().take(8).cloned().collect();
     case(format!("CParse {} {} {}", hn(&head), bytes.len(), o));
     cx.n_cases += 1;
@@ -1062,12 +1079,387 @@ fn extract_case(cx: &mut Ctx, p: &Pczt) {
     cx.bump(if tx.is_some() { "extract_ok" } else { "extract_err" });
 }
 
+
+
+// ---------------------------------------------------------------------------------------------
+// The serde tree of a value as a Coq term of type `wval` (coq/C13/Postcard.v)
+// ---------------------------------------------------------------------------------------------
+mod wtree {
+    use serde::ser::{self, Serialize};
+    use std::fmt;
+
+    #[derive(Debug)]
+    pub struct E(String);
+    impl fmt::Display for E {
+        fn fmt(&self, f: &mut fmt::Formatter) -> fmt::Result {
+            write!(f, "{}", self.0)
+        }
+    }
+    impl std::error::Error for E {}
+    impl ser::Error for E {
+        fn custom<T: fmt::Display>(m: T) -> Self {
+            E(m.to_string())
+        }
+    }
+
+    pub struct S;
+    pub struct Seq {
+        items: Vec<String>,
+        variant: Option<u32>,
+    }
+    pub struct Map {
+        items: Vec<String>,
+        key: Option<String>,
+    }
+
+    fn vl(items: &[String]) -> String {
+        format!("(VL [{}])", items.join("; "))
+    }
+    pub fn to_coq<T: Serialize + ?Sized>(v: &T) -> Result<String, E> {
+        v.serialize(S)
+    }
+
+    impl ser::Serializer for S {
+        type Ok = String;
+        type Error = E;
+        type SerializeSeq = Seq;
+        type SerializeTuple = Seq;
+        type SerializeTupleStruct = Seq;
+        type SerializeTupleVariant = Seq;
+        type SerializeMap = Map;
+        type SerializeStruct = Seq;
+        type SerializeStructVariant = Seq;
+
+        fn serialize_bool(self, v: bool) -> Result<String, E> {
+            Ok(format!("(VB {})", v))
+        }
+        fn serialize_i8(self, v: i8) -> Result<String, E> {
+            Ok(format!("(VZ ({}))", v))
+        }
+        fn serialize_i16(self, v: i16) -> Result<String, E> {
+            Ok(format!("(VZ ({}))", v))
+        }
+        fn serialize_i32(self, v: i32) -> Result<String, E> {
+            Ok(format!("(VZ ({}))", v))
+        }
+        fn serialize_i64(self, v: i64) -> Result<String, E> {
+            Ok(format!("(VZ ({}))", v))
+        }
+        fn serialize_i128(self, v: i128) -> Result<String, E> {
+            Ok(format!("(VZ ({}))", v))
+        }
+        fn serialize_u8(self, v: u8) -> Result<String, E> {
+            Ok(format!("(VN {})", v))
+        }
+        fn serialize_u16(self, v: u16) -> Result<String, E> {
+            Ok(format!("(VN {})", v))
+        }
+        fn serialize_u32(self, v: u32) -> Result<String, E> {
+            Ok(format!("(VN {})", v))
+        }
+        fn serialize_u64(self, v: u64) -> Result<String, E> {
+            Ok(format!("(VN {})", v))
+        }
+        fn serialize_u128(self, v: u128) -> Result<String, E> {
+            Ok(format!("(VN {})", v))
+        }
+        fn serialize_f32(self, _v: f32) -> Result<String, E> {
+            Err(E("f32".into()))
+        }
+        fn serialize_f64(self, _v: f64) -> Result<String, E> {
+            Err(E("f64".into()))
+        }
+        fn serialize_char(self, _v: char) -> Result<String, E> {
+            Err(E("char".into()))
+        }
+        fn serialize_str(self, v: &str) -> Result<String, E> {
+            self.serialize_bytes(v.as_bytes())
+        }
+        fn serialize_bytes(self, v: &[u8]) -> Result<String, E> {
+            Ok(vl(&v.iter().map(|b| format!("(VN {})", b)).collect::<Vec<_>>()))
+        }
+        fn serialize_none(self) -> Result<String, E> {
+            Ok("(VO None)".into())
+        }
+        fn serialize_some<T: Serialize + ?Sized>(self, v: &T) -> Result<String, E> {
+            Ok(format!("(VO (Some {}))", v.serialize(S)?))
+        }
+        fn serialize_unit(self) -> Result<String, E> {
+            Ok("(VL [])".into())
+        }
+        fn serialize_unit_struct(self, _n: &'static str) -> Result<String, E> {
+            Ok("(VL [])".into())
+        }
+        fn serialize_unit_variant(self, _n: &'static str, i: u32, _v: &'static str) -> Result<String, E> {
+            Ok(format!("(VE {} (VL []))", i))
+        }
+        fn serialize_newtype_struct<T: Serialize + ?Sized>(self, _n: &'static str, v: &T) -> Result<String, E> {
+            v.serialize(S)
+        }
+        fn serialize_newtype_variant<T: Serialize + ?Sized>(self, _n: &'static str, i: u32, _v: &'static str, v: &T) -> Result<String, E> {
+            Ok(format!("(VE {} {})", i, v.serialize(S)?))
+        }
+        fn serialize_seq(self, _len: Option<usize>) -> Result<Seq, E> {
+            Ok(Seq { items: vec![], variant: None })
+        }
+        fn serialize_tuple(self, _len: usize) -> Result<Seq, E> {
+            Ok(Seq { items: vec![], variant: None })
+        }
+        fn serialize_tuple_struct(self, _n: &'static str, _len: usize) -> Result<Seq, E> {
+            Ok(Seq { items: vec![], variant: None })
+        }
+        fn serialize_tuple_variant(self, _n: &'static str, i: u32, _v: &'static str, _len: usize) -> Result<Seq, E> {
+            Ok(Seq { items: vec![], variant: Some(i) })
+        }
+        fn serialize_map(self, _len: Option<usize>) -> Result<Map, E> {
+            Ok(Map { items: vec![], key: None })
+        }
+        fn serialize_struct(self, _n: &'static str, _len: usize) -> Result<Seq, E> {
+            Ok(Seq { items: vec![], variant: None })
+        }
+        fn serialize_struct_variant(self, _n: &'static str, i: u32, _v: &'static str, _len: usize) -> Result<Seq, E> {
+            Ok(Seq { items: vec![], variant: Some(i) })
+        }
+        fn is_human_readable(&self) -> bool {
+            false
+        }
+    }
+
+    impl Seq {
+        fn push<T: Serialize + ?Sized>(&mut self, v: &T) -> Result<(), E> {
+            self.items.push(v.serialize(S)?);
+            Ok(())
+        }
+        fn done(self) -> Result<String, E> {
+            Ok(match self.variant {
+                None => vl(&self.items),
+                Some(i) => format!("(VE {} {})", i, vl(&self.items)),
+            })
+        }
+    }
+    impl ser::SerializeSeq for Seq {
+        type Ok = String;
+        type Error = E;
+        fn serialize_element<T: Serialize + ?Sized>(&mut self, v: &T) -> Result<(), E> {
+            self.push(v)
+        }
+        fn end(self) -> Result<String, E> {
+            self.done()
+        }
+    }
+    impl ser::SerializeTuple for Seq {
+        type Ok = String;
+        type Error = E;
+        fn serialize_element<T: Serialize + ?Sized>(&mut self, v: &T) -> Result<(), E> {
+            self.push(v)
+        }
+        fn end(self) -> Result<String, E> {
+            self.done()
+        }
+    }
+    impl ser::SerializeTupleStruct for Seq {
+        type Ok = String;
+        type Error = E;
+        fn serialize_field<T: Serialize + ?Sized>(&mut self, v: &T) -> Result<(), E> {
+            self.push(v)
+        }
+        fn end(self) -> Result<String, E> {
+            self.done()
+        }
+    }
+    impl ser::SerializeTupleVariant for Seq {
+        type Ok = String;
+        type Error = E;
+        fn serialize_field<T: Serialize + ?Sized>(&mut self, v: &T) -> Result<(), E> {
+            self.push(v)
+        }
+        fn end(self) -> Result<String, E> {
+            self.done()
+        }
+    }
+    impl ser::SerializeStruct for Seq {
+        type Ok = String;
+        type Error = E;
+        fn serialize_field<T: Serialize + ?Sized>(&mut self, _k: &'static str, v: &T) -> Result<(), E> {
+            self.push(v)
+        }
+        fn end(self) -> Result<String, E> {
+            self.done()
+        }
+    }
+    impl ser::SerializeStructVariant for Seq {
+        type Ok = String;
+        type Error = E;
+        fn serialize_field<T: Serialize + ?Sized>(&mut self, _k: &'static str, v: &T) -> Result<(), E> {
+            self.push(v)
+        }
+        fn end(self) -> Result<String, E> {
+            self.done()
+        }
+    }
+    impl ser::SerializeMap for Map {
+        type Ok = String;
+        type Error = E;
+        fn serialize_key<T: Serialize + ?Sized>(&mut self, k: &T) -> Result<(), E> {
+            self.key = Some(k.serialize(S)?);
+            Ok(())
+        }
+        fn serialize_value<T: Serialize + ?Sized>(&mut self, v: &T) -> Result<(), E> {
+            let k = self.key.take().ok_or_else(|| E("value without key".into()))?;
+            self.items.push(format!("(VL [{}; {}])", k, v.serialize(S)?));
+            Ok(())
+        }
+        fn end(self) -> Result<String, E> {
+            Ok(vl(&self.items))
+        }
+    }
+}
+
+/// The serde tree of both explicit encodings together with the bytes the crate writes.
+fn bytes_case(cx: &mut Ctx, p: &Pczt) {
+    if let Some(x) = catch(|| pczt::v1::Pczt::try_from(p.clone()).ok()).flatten() {
+        if let Ok(t) = wtree::to_coq(&x) {
+            case(format!("CBytes 1 {} {}", t, hn(&x.serialize())));
+            cx.n_cases += 1;
+            cx.bump("bytes_v1");
+        }
+    }
+    if let Some(x) = catch(|| pczt::v2::Pczt::try_from(p.clone()).ok()).flatten() {
+        if let Ok(t) = wtree::to_coq(&x) {
+            case(format!("CBytes 2 {} {}", t, hn(&x.serialize())));
+            cx.n_cases += 1;
+            cx.bump("bytes_v2");
+        }
+    }
+}
+
+// ---------------------------------------------------------------------------------------------
+// The transaction a PCZT describes, as the implementation computes it (Pczt::into_effects)
+// ---------------------------------------------------------------------------------------------
+
+fn btext(b: &[u8]) -> String {
+    format!("[{}]", b.iter().map(|x| x.to_string()).collect::<Vec<_>>().join(","))
+}
+
+fn orchard_tx(b: Option<&orchard::Bundle<orchard::bundle::EffectsOnly, zcash_protocol::value::ZatBalance>>, v6: bool, it: &mut Intern) -> Option<String> {
+    let b = match b {
+        None => return Some("DA 0".into()),
+        Some(b) => b,
+    };
+    let acts: Vec<String> = b
+        .actions()
+        .iter()
+        .map(|a| {
+            let rk: [u8; 32] = a.rk().into();
+            let en = a.encrypted_note();
+            format!(
+                "DS [DA {}; DA {}; DA {}; DA {}; DA {}; DA {}; DA {}]",
+                it.id(btext(&a.nullifier().to_bytes())),
+                it.id(btext(&rk)),
+                it.id(btext(&a.cmx().to_bytes())),
+                it.id(btext(&en.epk_bytes)),
+                it.id(btext(&en.enc_ciphertext)),
+                it.id(btext(&en.out_ciphertext)),
+                it.id(btext(&a.cv_net().to_bytes()))
+            )
+        })
+        .collect();
+    let flags = b.flags().to_byte(b.bundle_version())?;
+    let vb: i64 = (*b.value_balance()).into();
+    let vs = format!("({},{}())", vb.unsigned_abs(), if vb < 0 { "true" } else { "false" });
+    let an = if v6 { "DA 0".to_string() } else { format!("DA {}", it.id(btext(&b.anchor().to_bytes()))) };
+    Some(format!("DS [DL [{}]; DN {}; DA {}; {}]", acts.join("; "), flags, it.id(vs), an))
+}
+
+/// The effects as a Coq term of the layout documented at `tx_post` in coq/C13/Model.v.
+fn effects_tree(p: &Pczt, it: &mut Intern) -> Option<String> {
+    use zcash_transparent::sighash::TransparentAuthorizingContext;
+    let t = catch(|| p.clone().into_effects().ok()).flatten()?;
+    let txv = *p.global().tx_version();
+    let v6 = txv == 6;
+    let (mut vin, mut vout) = (vec![], vec![]);
+    if let Some(b) = t.transparent_bundle() {
+        let amounts = b.authorization.input_amounts();
+        let scripts = b.authorization.input_scriptpubkeys();
+        for (i, x) in b.vin.iter().enumerate() {
+            vin.push(format!(
+                "DS [DA {}; DN {}; DA {}; DN {}; DA {}]",
+                it.id(btext(x.prevout().hash())),
+                x.prevout().n(),
+                it.id(x.sequence().to_string()),
+                u64::from(amounts[i]),
+                it.id(btext(&scripts[i].0 .0))
+            ));
+        }
+        for o in b.vout.iter() {
+            vout.push(format!("DS [DN {}; DA {}]", u64::from(o.value()), it.id(btext(&o.script_pubkey().0 .0))));
+        }
+    }
+    let sap = match t.sapling_bundle() {
+        None => "DA 0".to_string(),
+        Some(b) => {
+            let sp: Vec<String> = b
+                .shielded_spends()
+                .iter()
+                .map(|s| {
+                    let rk: [u8; 32] = (*s.rk()).into();
+                    format!("DS [DA {}; DA {}; DA {}]", it.id(btext(&s.cv().to_bytes())), it.id(btext(&s.nullifier().0)), it.id(btext(&rk)))
+                })
+                .collect();
+            let an = match b.shielded_spends().first() {
+                Some(s) if !v6 => format!("DA {}", it.id(btext(&s.anchor().to_bytes()))),
+                _ => "DA 0".to_string(),
+            };
+            let ou: Vec<String> = b
+                .shielded_outputs()
+                .iter()
+                .map(|o| {
+                    format!(
+                        "DS [DA {}; DA {}; DA {}; DA {}; DA {}]",
+                        it.id(btext(&o.cv().to_bytes())),
+                        it.id(btext(&o.cmu().to_bytes())),
+                        it.id(btext(&o.ephemeral_key().0)),
+                        it.id(btext(&o.enc_ciphertext()[..])),
+                        it.id(btext(&o.out_ciphertext()[..]))
+                    )
+                })
+                .collect();
+            let vb: i64 = (*b.value_balance()).into();
+            format!("DS [DL [{}]; {}; DL [{}]; DN {}]", sp.join("; "), an, ou.join("; "), z(vb as i128))
+        }
+    };
+    let orc = orchard_tx(t.orchard_bundle(), v6, it)?;
+    let iro = orchard_tx(t.ironwood_bundle(), v6, it)?;
+    Some(format!(
+        "(DS [DN {}; DN {}; DN {}; DA {}; DN {}; DL [{}]; DL [{}]; {}; {}; {}])",
+        txv,
+        t.version().version_group_id(),
+        u32::from(t.consensus_branch_id()),
+        it.id(t.lock_time().to_string()),
+        u32::from(t.expiry_height()),
+        vin.join("; "),
+        vout.join("; "),
+        sap,
+        orc,
+        iro
+    ))
+}
+
+fn effects_case(cx: &mut Ctx, p: &Pczt) {
+    let mut it = Intern::new();
+    let t = tree(p, &mut it, cx.shapes);
+    let e = effects_tree(p, &mut it);
+    cx.bump(if e.is_some() { "effects_some" } else { "effects_none" });
+    case(format!("CEffects {} {}", t, opt(e)));
+    cx.n_cases += 1;
+}
+
 // ---------------------------------------------------------------------------------------------
 
 fn random_spec(rng: &mut Rng) -> Spec {
     let v6 = rng.bool();
     let kind = rng.below(8);
-    let mut s = Spec { v6, ..Default::default() };
+    let mut s = Spec { v6, memo: rng.below(4) as u8, ..Default::default() };
     match kind {
         0 => {
             // transparent only
@@ -1120,11 +1512,17 @@ fn random_spec(rng: &mut Rng) -> Spec {
 
 /// Creator-made empty PCZT compatible with `b` (all-modifiable flags; no inputs or outputs).
 fn template(b: &Base) -> Option<Pczt> {
+    template_with(b, true)
+}
+
+fn template_with(b: &Base, fallback: bool) -> Option<Pczt> {
     let g = b.pczt.global();
     let sa = *b.pczt.sapling().anchor();
     let oa = *b.pczt.orchard().anchor();
     let mut c = Creator::new(*g.consensus_branch_id(), *g.expiry_height(), 1, sa, oa).ok()?;
-    c = c.with_fallback_lock_time(0);
+    if fallback {
+        c = c.with_fallback_lock_time(0);
+    }
     if let Some(a) = b.pczt.ironwood().anchor() {
         c = c.with_ironwood_anchor(*a).ok()?;
     }
@@ -1169,6 +1567,13 @@ fn main() {
                 if let Some(q) = with_flags(&b.pczt, fl) {
                     ps.push(q);
                 }
+                if cx.rng.chance(1, 3) || spec.sout + spec.oout + spec.iout == 0 {
+                    // a Creator copy that disagrees on the fallback lock time (an effecting field)
+                    if let Some(t) = template_with(&b, false) {
+                        cx.bump("template_no_fallback");
+                        ps.push(t);
+                    }
+                }
                 if n == 4 {
                     if let Some(t) = template(&b).and_then(|t| with_flags(&t, *cx.rng.pick(&[0x00u8, 0x80, 0x03, 0x83]))) {
                         ps.push(t);
@@ -1204,9 +1609,31 @@ fn main() {
             if cx.rng.chance(1, 2) {
                 ser_case(&mut cx, p);
             }
+            if cx.rng.chance(1, 2) {
+                effects_case(&mut cx, p);
+            }
+        }
+        effects_case(&mut cx, &b.pczt);
+        if cx.rng.chance(1, 3) {
+            let q = ps[cx.rng.below(ps.len() as u64) as usize].clone();
+            bytes_case(&mut cx, &q);
         }
         if let Ok(bytes) = ps[0].clone().serialize() {
             sers.push(bytes);
+        }
+        // compaction of resolvable fields (memo plaintext instead of the ciphertext), then encode
+        if spec.oout + spec.iout > 0 {
+            let r = Redactor::new(b.pczt.clone())
+                .redact_orchard_with(|mut o| o.compact_resolvable_fields())
+                .redact_ironwood_with(|mut o| o.compact_resolvable_fields())
+                .finish();
+            cx.role_case(Role::Redactor, 20, &b.pczt, Some(&r));
+            ser_case(&mut cx, &r);
+            effects_case(&mut cx, &r);
+            if cx.rng.chance(1, 3) || spec.memo == 1 {
+                bytes_case(&mut cx, &r);
+            }
+            cx.bump(&format!("compact_memo{}", spec.memo));
         }
         // transparent-only: complete the transaction and extract it
         if spec.sout + spec.oout + spec.iout == 0 && !spec.ospend && !spec.sspend {
@@ -1247,14 +1674,14 @@ fn main() {
     for v6 in [false, true] {
         for mode in 0..4u32 {
             corpus.push((Spec { v6, tin: vec![1_000_000], tout: 1, ..Default::default() }, mode));
-            corpus.push((Spec { v6, tin: vec![1_000_000], oout: 1, ..Default::default() }, mode));
+            corpus.push((Spec { v6, tin: vec![1_000_000], oout: 1, memo: (mode % 4) as u8, ..Default::default() }, mode));
             corpus.push((Spec { v6, tin: vec![1_000_000], sout: 1, ..Default::default() }, mode));
             corpus.push((Spec { v6, ospend: true, oout: 1, ..Default::default() }, mode));
             corpus.push((Spec { v6, sspend: true, sout: 1, ..Default::default() }, mode));
         }
     }
     for mode in 0..4u32 {
-        corpus.push((Spec { v6: true, tin: vec![1_000_000], iout: 1, ..Default::default() }, mode));
+        corpus.push((Spec { v6: true, tin: vec![1_000_000], iout: 1, memo: (mode % 4) as u8, ..Default::default() }, mode));
         corpus.push((Spec { v6: true, deferred: true, ospend: true, iout: 1, ..Default::default() }, mode));
     }
     for (s, m) in corpus.iter() {
